@@ -587,3 +587,49 @@ func ruleR11g(c *Ctx) {
 	c.check(direct, "R11g", "soymsg/pomsg.bundle.PluralCase applies-rule-to-argument", pc.Pos(), "returns the rule applied to the number itself",
 		"PluralCase does not simply return the catalogue's rule applied to its argument")
 }
+
+// R11h: a message that is not in the catalogue renders its source text, which does not depend on the
+// catalogue: the functions that render the source form (walkMsgBody and the unexported functions it calls,
+// such as the plural walker) never read the state's message bundle. (The generated JavaScript's source
+// fallback has no bundle to consult at all.)
+func ruleR11h(c *Ctx) {
+	p := c.pkg("soyhtml")
+	fd := c.mustFunc("soyhtml", "state.walkMsgBody")
+	if p == nil || fd == nil {
+		return
+	}
+	info := p.TypesInfo
+	n := 0
+	for _, hd := range c.withHelpers("soyhtml", fd, 1) {
+		// only the helpers that render message structure (they take a message node); the generic walker is
+		// entered again for the placeholders' own commands and is not part of the source-form path
+		if hd != fd {
+			takes := false
+			for _, fl := range hd.Type.Params.List {
+				if tv, ok := info.Types[fl.Type]; ok {
+					if _, tn, ok := relPkgOfType(tv.Type); ok && strings.HasPrefix(tn, "Msg") {
+						takes = true
+					}
+				}
+			}
+			if !takes {
+				continue
+			}
+		}
+		n++
+		var reads []string
+		ast.Inspect(hd.Body, func(x ast.Node) bool {
+			if se, ok := x.(*ast.SelectorExpr); ok {
+				if fv := fieldOf(se, info); fv != nil {
+					if _, tn, ok := relPkgOfType(fv.Type()); ok && tn == "Bundle" {
+						reads = append(reads, exprKey(se))
+					}
+				}
+			}
+			return true
+		})
+		c.check(len(reads) == 0, "R11h", c.declKey("soyhtml", hd)+" source-form-ignores-bundle", hd.Pos(), "renders the source form without consulting the catalogue",
+			"the source-form rendering reads the message bundle ("+strings.Join(reads, ", ")+"): a message missing from a partial catalogue then no longer falls back to its source text (and differs from the JavaScript fallback)")
+	}
+	c.floor("R11h", "functions rendering a message's source form", 2, n)
+}
